@@ -390,13 +390,117 @@ def check_C13(ctx):
             ctx.violation("C13:stray:%s" % ("empty" if stray == [""] else "other"), "coverage has entries for files that are no instrumented source: %r" % (stray,), {"case": c})
 
 
+# =============================================================================================== C12
+def prove_C12(ctx):
+    ctx.prove(["Properties/C12.v"], aux=["Properties/C12_refuted.v"])
+
+
+def _life_causes(body, cov, depth=0):
+    """known causes for which the unchanged code breaks the lifecycle grammar"""
+    causes = set()
+
+    def escapes(b):  # does an exception escape this module body?
+        for it in b:
+            if it[0] == "raise":
+                return True
+            if it[0] == "exit":
+                return False
+            if it[0] == "import":
+                if escapes(it[1]) and (not it[2] or cov):
+                    return True
+        return False
+
+    def walk(b, d):
+        for it in b:
+            if it[0] == "raise":
+                if cov:
+                    causes.add("C12:coverage_replaces_exception")
+                return
+            if it[0] == "exit":
+                return
+            if it[0] == "import":
+                walk(it[1], d + 1)
+                if escapes(it[1]):
+                    causes.add("C12:handled_reported_uncaught" if (it[2] and not cov) else "C12:uncaught_twice")
+                    if not it[2] or cov:
+                        return
+
+    walk(body, 0)
+    return causes
+
+
+def _grammar_ok(notes):
+    by = {}
+    for k, w in notes:
+        by.setdefault(k, []).append(w)
+    for k, seq in by.items():
+        st = 0
+        for w in seq:
+            if st == 0 and w == "begin":
+                st = 1
+            elif st == 1 and w == "ev":
+                pass
+            elif st == 1 and w == "uncaught":
+                st = 2
+            elif st in (1, 2) and w == "end":
+                st = 3
+            else:
+                return False
+        if st != 3:
+            return False
+    return True
+
+
+def check_C12(ctx):
+    import streams
+
+    n = 64 if ctx.quick else 600
+    done = 0
+    shard = 0
+    while done < n:
+        m = min(200, n - done)
+        res = streams.run_stream("lifecycle", ctx.seed * 1000 + shard, m, ctx.work)
+        shard += 1
+        done += m
+        st = ctx.streams.setdefault("lifecycle", {"cases": 0, "disagreements": 0, "dist": {}})
+        st["cases"] += len(res["cases"])
+        for k, v in res["dist"].items():
+            st["dist"][k] = st["dist"].get(k, 0) + v
+        if res["failing"] is None:
+            ctx.broken.append("correspondence stream lifecycle could not be evaluated: " + res["error"][-400:])
+            continue
+        disagree, model_gram = res["failing"]
+        for i in disagree:
+            st["disagreements"] += 1
+            ctx.broken.append("model/implementation disagree: stream lifecycle case %d (seed %d): %s" % (i, ctx.seed * 1000 + shard - 1, json.dumps(res["cases"][i], default=str)[:500]))
+        for i, c in enumerate(res["cases"]):
+            ctx.count(1, [json.dumps([c["body"], c["mode"], c["coverage"]])], [{"body": c["body"], "mode": c["mode"], "coverage": c["coverage"], "observed": c["observed"], "outcome": c["outcome"]}])
+            ctx.impl_traces += 1
+            ok = _grammar_ok(c["observed"]) and c["outcome"] != 3
+            # the uncaught report must appear iff an exception left the program
+            has_unc = any(w == "uncaught" for _, w in c["observed"])
+            if ok and has_unc != (c["outcome"] == 1):
+                ok = False
+            if c["coverage"] and c["covfiles"] != len({k for k, _ in c["observed"]}) and ok:
+                ctx.violation("C12:coverage_files", "%d coverage files for %d engines" % (c["covfiles"], len({k for k, _ in c["observed"]})), {"lifecycle_case": c})
+            if c["stray"]:
+                ctx.violation("C12:stray_idmap", "a file -dynapyt.json was created in the working directory (coverage accounting of runtime_event('', -1))", {"lifecycle_case": c})
+            if not ok:
+                causes = _life_causes(c["body"], c["coverage"])
+                if causes:
+                    for cause in sorted(causes)[:1]:
+                        ctx.violation(cause, "lifecycle grammar broken: observed %r outcome %d" % (c["observed"], c["outcome"]), {"lifecycle_case": c})
+                else:
+                    ctx.violation("C12:grammar", "lifecycle grammar broken with no known cause: observed %r outcome %d" % (c["observed"], c["outcome"]), {"lifecycle_case": c})
+
+
 # =============================================================================================== registry
 def _todo(ctx):
     pass
 
 
-PROVE = {"C09": prove_C09, "C10": prove_C10, "C11": prove_C11, "C13": prove_C13}
-CHECK = {"C09": check_C09, "C10": check_C10, "C11": check_C11, "C13": check_C13}
+PROVE = {"C09": prove_C09, "C10": prove_C10, "C11": prove_C11, "C12": prove_C12, "C13": prove_C13}
+CHECK = {"C09": check_C09, "C10": check_C10, "C11": check_C11, "C12": check_C12, "C13": check_C13}
 
 
 def replay(ctx, payload):
